@@ -220,6 +220,17 @@ class Evaluator:
             return _copy.copy(args[0]) if name == "copy.copy" else _copy.deepcopy(args[0])
         if name == "collections.deque":
             return deque(self._iterate(args[0], node)) if args else deque()
+        if name == "collections.defaultdict" and len(args) <= 1:
+            import collections as _collections
+
+            factory = None
+            if args:
+                fac = args[0]
+                fname = fac.name if isinstance(fac, ExtRef) else None
+                factory = {"builtins.list": list, "builtins.set": set, "builtins.dict": dict, "builtins.int": int}.get(fname or "")
+                if factory is None:
+                    raise NotEvaluable(f"defaultdict with factory {fac!r}")
+            return _collections.defaultdict(factory)
         if name in ("warnings.warn", "print", "warnings.filterwarnings", "warnings.resetwarnings", "warnings.simplefilter", "logging.info", "logging.debug", "logging.warning"):
             return None  # diagnostics only
         if name == "warnings.catch_warnings":
@@ -377,10 +388,16 @@ class Evaluator:
         if len(args) > len(names):
             raise NotEvaluable(f"too many arguments for {fi.qualname}")
         bound = dict(zip(names, args))
+        extra_kw = {}
         for k, v in (kwargs or {}).items():
             if k not in names and k not in [x.arg for x in a.kwonlyargs]:
-                raise NotEvaluable(f"unexpected keyword {k} for {fi.qualname}")
+                if a.kwarg is None:
+                    raise NotEvaluable(f"unexpected keyword {k} for {fi.qualname}")
+                extra_kw[k] = v  # collected by **kwargs
+                continue
             bound[k] = v
+        if a.kwarg is not None:
+            bound[a.kwarg.arg] = extra_kw
         self._depth = getattr(self, "_depth", 0) + 1
         if self._depth > 40:
             raise NotEvaluable("call depth exceeded")
@@ -601,7 +618,7 @@ class Evaluator:
             return self.bind[n.id]
         if n.id in ("True", "False", "None"):
             return {"True": True, "False": False, "None": None}[n.id]
-        if n.id in ("str", "int", "len", "abs"):
+        if n.id in ("str", "int", "len", "abs", "list", "set", "dict", "float", "tuple", "bool"):
             return ExtRef(f"builtins.{n.id}")
         if self.repo is not None and self.mod_stack and self.mod_stack[-1] is not None:
             return self._module_name(self.mod_stack[-1], n.id)
@@ -721,6 +738,10 @@ class Evaluator:
                 return a * b
         if isinstance(op, ast.Sub) and isinstance(a, (set, frozenset)) and isinstance(b, (set, frozenset)):
             return a - b
+        if isinstance(op, ast.BitXor) and isinstance(a, (set, frozenset)) and isinstance(b, (set, frozenset)):
+            return a ^ b
+        if isinstance(op, ast.BitAnd) and isinstance(a, (set, frozenset)) and isinstance(b, (set, frozenset)):
+            return a & b
         if isinstance(op, ast.BitOr) and isinstance(a, (set, frozenset)) and isinstance(b, (set, frozenset)):
             return a | b
         if isinstance(op, ast.BitAnd) and isinstance(a, (set, frozenset)) and isinstance(b, (set, frozenset)):
@@ -1155,6 +1176,15 @@ class Evaluator:
                     return None
                 if meth == "pop":
                     return recv.pop(*args)
+                if meth == "remove":
+                    for i_, x_ in enumerate(recv):
+                        if x_ is args[0] or self._equal(x_, args[0]):
+                            del recv[i_]
+                            return None
+                    raise Raised("ValueError")
+                if meth == "clear":
+                    del recv[:]
+                    return None
                 if meth == "sort":
                     recv[:] = self._sorted(list(recv), n)
                     return None
